@@ -534,3 +534,143 @@ func init() {
 			return obs
 		}})
 }
+
+// UTF8.error-needs-width — C12 ("every value the printer writes is read back"):
+// utf8.DecodeRune reports an undecodable byte as (RuneError, 1).  U+FFFD itself
+// is a perfectly valid character that decodes as (RuneError, 3) — and Go's %q,
+// which the printer uses for strings, writes it verbatim.  "This rune is an
+// encoding error" therefore always takes BOTH tests; the rune value alone also
+// refuses every string, symbol and comment that contains a literal U+FFFD.
+func init() {
+	register(&Rule{ID: "UTF8.error-needs-width", Floor: 4,
+		Doc: "every comparison of a decoded rune with utf8.RuneError in the kernel that decides `invalid encoding` is conjoined with a test that the decoded width is 1 (the condition, or the returned boolean expression, implies both): valid U+FFFD text is accepted wherever it appears",
+		Run: func(c *Ctx) []Obligation {
+			const rid = "UTF8.error-needs-width"
+			var obs []Obligation
+			for _, u := range c.Funcs(isKernel) {
+				if u.Decl == nil || u.Decl.Body == nil {
+					continue
+				}
+				info := u.Pkg.TypesInfo
+				isRuneErr := func(e ast.Expr) bool {
+					o := identObjOrSel(info, e)
+					return o != nil && o.Pkg() != nil && o.Pkg().Path() == "unicode/utf8" && o.Name() == "RuneError"
+				}
+				ord := &ordinal{}
+				// top-level boolean contexts: if conditions and returned expressions
+				check := func(root ast.Expr, at ast.Node) {
+					atoms := impliedAtoms(root, true)
+					hasErr, hasWidth := false, false
+					for _, a := range atoms {
+						be, ok := ast.Unparen(a.E).(*ast.BinaryExpr)
+						if !ok || !a.Positive || be.Op != token.EQL {
+							continue
+						}
+						if isRuneErr(be.X) || isRuneErr(be.Y) {
+							hasErr = true
+							continue
+						}
+						for _, side := range []ast.Expr{be.X, be.Y} {
+							if v, ok := intConst(info, side); ok && v == 1 {
+								hasWidth = true
+							}
+						}
+					}
+					if !hasErr {
+						// RuneError mentioned under a disjunction or negation: not implied, look inside
+						mention := false
+						ast.Inspect(root, func(m ast.Node) bool {
+							if e, ok := m.(ast.Expr); ok && isRuneErr(e) {
+								mention = true
+							}
+							return true
+						})
+						if mention {
+							obs = append(obs, mkOb(c, rid, u, ord.next("RuneError comparison"), at, Undecided, "utf8.RuneError is compared inside a condition this rule cannot reduce to a conjunction", true))
+						}
+						return
+					}
+					construct := ord.next("RuneError comparison")
+					if hasWidth {
+						obs = append(obs, mkOb(c, rid, u, construct, at, Proved, "conjoined with a width == 1 test", true))
+					} else {
+						obs = append(obs, mkOb(c, rid, u, construct, at, Violated, "a rune is classed as an encoding error by its value alone: a valid literal U+FFFD (bytes EF BF BD, width 3) is refused, so a string containing it — which the printer writes verbatim — cannot be read back, and a comment containing it makes the whole program unreadable", true))
+					}
+				}
+				ast.Inspect(u.Decl.Body, func(n ast.Node) bool {
+					switch x := n.(type) {
+					case *ast.IfStmt:
+						check(x.Cond, x)
+					case *ast.ReturnStmt:
+						for _, r := range x.Results {
+							if tv, ok := info.Types[r]; ok {
+								if b, ok := tv.Type.Underlying().(*types.Basic); ok && b.Kind() == types.Bool {
+									if _, isBin := ast.Unparen(r).(*ast.BinaryExpr); isBin {
+										check(r, x)
+									}
+								}
+							}
+						}
+					}
+					return true
+				})
+			}
+			return obs
+		}})
+}
+
+// LEX.overflow-needs-full-window — C12 ("the three reader modes accept the same
+// programs"; a program is accepted or refused for what it says, not for where
+// its bytes fall in the scanner's window): a token is too large only when it
+// ALONE fills the window — it starts at the window's first byte and there is
+// no room to read on.  While the token starts later, the scanner can still
+// slide the window; reporting overflow then refuses a valid program whose
+// token happens to end a few bytes before the 128KiB edge.
+func init() {
+	register(&Rule{ID: "LEX.overflow-needs-full-window", Floor: 1,
+		Doc: "Scanner.Overflow answers true only over paths that establish the current token starts at the beginning of the window (start == 0), the buffer is at capacity and the reader is not at EOF: a token is refused for its own size, never for its position relative to the window edge",
+		Run: func(c *Ctx) []Obligation {
+			const rid = "LEX.overflow-needs-full-window"
+			fn, fd, pkg := c.LookupFunc("parser/token.(*Scanner).Overflow")
+			startF := c.LookupField("parser/token.Scanner.start")
+			if fn == nil || startF == nil {
+				return []Obligation{anchorMissing(rid, "Scanner.Overflow / Scanner.start")}
+			}
+			u := FuncUnit{fn, fd, pkg}
+			info := pkg.TypesInfo
+			fc := c.cfgOf(u, nil)
+			cls := func(e ast.Expr) (string, bool) {
+				be, ok := ast.Unparen(e).(*ast.BinaryExpr)
+				if !ok || be.Op != token.EQL && be.Op != token.NEQ && be.Op != token.GTR {
+					return "", false
+				}
+				isStart := func(a ast.Expr) bool { return FieldOfSelector(info, a) == startF }
+				isZero := func(a ast.Expr) bool { v, ok := intConst(info, a); return ok && v == 0 }
+				if isStart(be.X) && isZero(be.Y) || isStart(be.Y) && isZero(be.X) {
+					return "atstart", be.Op != token.EQL // start != 0 / start > 0 are the negation
+				}
+				return "", false
+			}
+			cut := fc.edgesEntailing(cls, func(v map[string]bool) bool { return v["$has:atstart"] && v["atstart"] })
+			var obs []Obligation
+			ord := &ordinal{}
+			for _, b := range fc.G.Blocks {
+				if !fc.Live(b) {
+					continue
+				}
+				for _, n := range b.Nodes {
+					rs, ok := n.(*ast.ReturnStmt)
+					if !ok || len(rs.Results) != 1 || isBoolConst(info, rs.Results[0], false) {
+						continue
+					}
+					construct := ord.next("may answer true")
+					if fc.reachableAvoiding(b, cut) {
+						obs = append(obs, mkOb(c, rid, u, construct, rs, Violated, "overflow can be reported for a token that does not start at the window's first byte: a string or #' token whose last byte lands just before the 128KiB window edge of a larger source is refused with `token exceeds maximum allowable size` although the window could slide — one byte of padding in front of the program decides whether it is accepted", true))
+					} else {
+						obs = append(obs, mkOb(c, rid, u, construct, rs, Proved, "only when the token starts at the window's first byte", true))
+					}
+				}
+			}
+			return obs
+		}})
+}
